@@ -185,6 +185,8 @@ class World:
         self.tz, self.F = tz, F
         self.off_cls, self.str_cls, self.gettz = tz.tzoffset, tz.tzstr, tz.gettz
         self.utc_cls = tz.tzutc
+        import datetime as _dt
+        self.tzinfo_cls = _dt.tzinfo
         self.saved = None
         self.keys = {}      # (fac, real key) -> int
         self.entries = []   # dict(fac, key, args, kind)
@@ -551,9 +553,11 @@ class Sched:
                         self.refs[slot] = res
                     if cacheable:
                         self.returns.append((op[1], op[2], self.ser.of(res), self.tep[t], held))
+                        if not isinstance(res, self.w.tzinfo_cls):
+                            self.excs.append((t, op, "returned %s instead of a zone" % type(res).__name__))
                 elif kind == "utc":
                     self.refs[op[1]] = res
-                    self.utc_results.append(self.ser.of(res))
+                    self.utc_results.append(self.ser.of(res) if isinstance(res, self.w.tzinfo_cls) else -1)
                 res = None
             self.cur[t] = None
         except SystemExit:
@@ -657,11 +661,13 @@ def run_sequential(world, prog):
                     refs[op[4]] = res
                 if world.is_cached_path(op, res):
                     returns.append((op[1], op[2], ser.of(res), epoch, held))
+                    if not isinstance(res, world.tzinfo_cls):
+                        excs.append((op, "returned %s instead of a zone" % type(res).__name__))
             elif kind == "instance":
                 refs[op[3]] = ops.instance(op)
             elif kind == "utc":
                 refs[op[1]] = world.utc_cls()
-                utc_results.append(refs[op[1]] is world.tz.UTC)
+                utc_results.append(refs[op[1]] is world.tz.UTC and isinstance(refs[op[1]], world.utc_cls))
             elif kind == "drop":
                 refs.pop(op[1], None)
             elif kind == "clear":
